@@ -5,11 +5,11 @@
 SEED="$1"; OUT="$2"; shift 2
 cd "$(dirname "$0")/.."
 for d in "$@"; do
-  name="$(basename "$d")"
+  name="$(basename "$d")"; abs="$(realpath "$d")"
   pid="$(/venv/bin/python -c "import json,sys; print(json.load(open(sys.argv[1]))['property'])" "$d/meta.json")"
   WT="$(mktemp -d /tmp/verif-sreg-XXXXXX)"; rmdir "$WT"
   git -C /repo worktree add -q --detach "$WT" HEAD || exit 2
-  if ( cd "$WT" && git apply "$(realpath "$d")/patch.diff" ); then
+  if ( cd "$WT" && git apply "$abs/patch.diff" ); then
     VERIF_SEED="$SEED" VERIF_REPO="$WT" PYTHONPATH="$WT/src" VERIF_NO_EVIDENCE=1 ./check "$pid" quick > "/tmp/sreg.$$.log" 2>&1; rc=$?
     echo "$name $pid seed=$SEED exit=$rc" >> "$OUT"
   else
